@@ -139,3 +139,21 @@ func TestHuntHeterogeneousList(t *testing.T) {
 		fmt.Println(harness.JSON(r.Clients[0]))
 	}
 }
+
+// TestHuntDiscriminatorCollision (VERIF_HUNT=5): a one-of whose discriminator is also a field of an option.
+func TestHuntDiscriminatorCollision(t *testing.T) {
+	if os.Getenv("VERIF_HUNT") != "5" {
+		t.Skip()
+	}
+	LoadSites(os.Getenv("VERIF_SITES"))
+	p := &ir.Program{Subs: map[string]*ir.Program{}}
+	p.Steps = []*ir.Step{{ID: "s0", Kind: "plugin", In: []ir.Field{ir.F("a", ir.Lit(int64(1)))}}, {ID: "s1", Kind: "plugin", In: []ir.Field{ir.F("a", ir.Lit(int64(2)))}}}
+	p.Outputs = []ir.Output{{ID: "success", E: ir.Obj(ir.F("pick", ir.OneOf("a", ir.F("x", ir.StepRef("s0", "outputs", "success")), ir.F("y", ir.StepRef("s1", "outputs", "success")))))}}
+	c := &Case{Property: "C10", Profile: "hunt", Class: "S1", Program: p, Doc: ir.Doc{"n": int64(1), "tag": "t", "flag": false}}
+	c.Policy = simrt.PolicySpec{Kind: "fifo", Seed: 1}
+	r := RunCase(t, c, false)
+	fmt.Println("PREPARE:", r.PrepareErr, "PANICS:", len(r.Panics))
+	for _, pn := range r.Panics {
+		fmt.Println(pn.Value, "\n", firstLines(pn.Stack, 14))
+	}
+}
